@@ -176,8 +176,20 @@ def check_create_values(ctx, rule):
         store[("TAB", (k,) + F("pcf_value_label", "label"))] = ("str", "L%d" % k)
     store[("TAB", (N,) + F("pcf_value_label", "value"))] = INT(-1)
     store[("TAB", (N,) + F("pcf_value_label", "label"))] = NULL
-    params = [p["ctype"] for p in cv.params]
-    args = [PTR("PVT"), PTR("TYPE"), INT(2)][:len(params)]
+    # parameters are bound by type: the spec, the .pcf type, the channel index, or the label table itself
+    args = []
+    for p_ in cv.params:
+        ct = p_["ctype"]
+        if "pcf_value_label" in ct:
+            args.append(PTR("TAB", (0,)))
+        elif "model_pvt_spec" in ct:
+            args.append(PTR("PVT"))
+        elif "pcf_type" in ct:
+            args.append(PTR("TYPE"))
+        elif ct.rstrip().endswith("*"):
+            args.append(PTR("ARG:" + p_["name"]))
+        else:
+            args.append(INT(2))
     outs = [o for o in ex.run(cv, args, store) if o.kind == "ret"]
     vals = [a[0] for a in added]
     ctx.check(bool(outs) and all(o.ret == INT(0) for o in outs) and vals == [INT(100 + k) for k in range(N)], rule,
